@@ -73,6 +73,36 @@ package recordio
 //@   ensures r0 == w.currentOffset
 //@   modifies nothing
 
+// The file header: version and compression code, little endian, 8 bytes; Open leaves the writer positioned behind it, with the
+// compressor the code names, and hands the header to the file at once (unless direct I/O forbids the unaligned write).
+//@ func fileHeaderAsByteSlice
+//@   props C04 C20 C12 C07
+//@   ensures [eight-bytes] len(r0) == 8
+//@   call 0 of littleEndian.PutUint32: assert [version-in-bytes-0-to-4] arr(arg0) == arr(bytes) && off(arg0) == off(bytes) && len(arg0) == 4 && arg1 == CurrentVersion
+//@   call 1 of littleEndian.PutUint32: assert [compression-code-in-bytes-4-to-8] arr(arg0) == arr(bytes) && off(arg0) == off(bytes) + 4 && len(arg0) == 4 && arg1 == compressionType
+//@   fresh r0
+//@   modifies nothing
+
+//@ func writeFileHeader
+//@   props C04 C20 C12 C07
+//@   requires writer.bufWriter != nil
+//@   ensures [header-length] r1 == nil ==> r0 == 8 && bwPos(writer.bufWriter) == old(bwPos(writer.bufWriter)) + 8
+//@   ensures r1 != nil ==> r0 == 0
+//@   call 0 of fileHeaderAsByteSlice: assert [header-names-the-writers-compression] 0 <= writer.compressionType && writer.compressionType < 4294967296 ==> arg0 == writer.compressionType
+//@   modifies bwPos(writer.bufWriter), bwFlushed(writer.bufWriter)
+
+//@ func (*FileWriter).Open
+//@   props C04 C15 C07 C20 C12
+//@   replay file_writer_programs
+//@   requires w.bufWriter != nil && w.file != nil
+//@   ensures [reopen-rejected] (old(w.open) || old(w.closed)) ==> r0 != nil && bwPos(w.bufWriter) == old(bwPos(w.bufWriter)) && w.currentOffset == old(w.currentOffset)
+//@   ensures [starts-behind-the-file-header] r0 == nil ==> w.open && w.currentOffset == 8 && w.headerOffset == 8 && w.largestOffset == 8
+//@   ensures [header-in-the-stream] r0 == nil ==> bwPos(w.bufWriter) == old(bwPos(w.bufWriter)) + 8
+//@   ensures [ready-for-records] r0 == nil ==> len(w.recordHeaderCache) >= 36 && w.bufferPool != nil
+//@   ensures [compressor-the-header-names] r0 == nil ==> (w.compressor == nil <==> w.compressionType == 0)
+//@   exit [C04,C07,C12:header-handed-to-the-file-at-once] r0 == nil && !w.alignedBlockWrites ==>
+//@        called(WriteSeekerCloserFlusher.Flush, 0) && callres(WriteSeekerCloserFlusher.Flush, 0, 0) == nil
+
 // the V4 record header: marker (3 bytes), nil flag, two minimal varints for the lengths, minimal varint of the CRC-32C
 //@ func fillRecordHeaderV4
 //@   props C04 C20 C15
@@ -160,6 +190,30 @@ package recordio
 //@ iface ReaderI.Open
 //@   modifies nothing
 
+// Opening a reader: the eight header bytes are read completely and parsed by readFileHeaderFromBuffer (which accepts exactly
+// the supported versions and compression codes, C12); reading starts right behind them.
+//@ func (*FileReader).Open
+//@   props C04 C12 C07
+//@   requires r.reader != nil && r.file != nil
+//@   exit [C04,C12:header-read-completely-and-parsed] r0 == nil ==> called(io.ReadFull, 0) && callres(io.ReadFull, 0, 1) == nil && callres(io.ReadFull, 0, 0) == 8 &&
+//@        called(readFileHeaderFromBuffer, 0) && callres(readFileHeaderFromBuffer, 0, 1) == nil && r.header == callres(readFileHeaderFromBuffer, 0, 0)
+//@   call 0 of io.ReadFull: assert [C04,C12:reads-eight-bytes-from-the-file] arg0 == r.reader && len(arg1) == 8
+//@   call 0 of readFileHeaderFromBuffer: assert [C04,C12:parses-the-bytes-read] arr(arg0) == arr(bytes) && off(arg0) == off(bytes) && len(arg0) == len(bytes)
+//@   ensures [starts-behind-the-file-header] r0 == nil ==> r.open && r.currentOffset == 8 && r.header != nil
+//@   ensures [ready-for-records] r0 == nil ==> len(r.recordHeaderCache) == 36 && r.recordHeaderByteReader != nil && r.bufferPool != nil
+
+//@ func (*MMapReader).Open
+//@   props C04 C12 C03
+//@   requires r.mmapReader != nil
+//@   exit [C04,C12:header-read-completely-and-parsed] r0 == nil ==> called(ReaderAt.ReadAt, 0) && callres(ReaderAt.ReadAt, 0, 1) == nil && callres(ReaderAt.ReadAt, 0, 0) == 8 &&
+//@        called(readFileHeaderFromBuffer, 0) && callres(readFileHeaderFromBuffer, 0, 1) == nil && r.header == callres(readFileHeaderFromBuffer, 0, 0)
+//@   call 0 of ReaderAt.ReadAt: assert [C04,C12:reads-eight-bytes-at-offset-zero] len(arg0) == 8 && arg1 == 0
+//@   call 0 of readFileHeaderFromBuffer: assert [C04,C12:parses-the-bytes-read] arr(arg0) == arr(buf) && off(arg0) == off(buf) && len(arg0) == len(buf)
+//@   ensures [reopen-rejected] (old(r.open) || old(r.closed)) ==> r0 != nil
+//@   ensures [open-for-reads] r0 == nil ==> r.open && r.header != nil && r.bufferPool != nil
+//@   ensures [failed-open-is-not-open] r0 != nil && !old(r.open) ==> !r.open
+//@   modifies r.header, r.bufferPool, r.open
+
 //@ iface ReaderI.ReadNext
 //@   ensures [step] r1 == nil ==> rdPos(this) == old(rdPos(this)) + 1
 //@   ensures [no-step] r1 != nil ==> rdPos(this) == old(rdPos(this))
@@ -214,6 +268,9 @@ package recordio
 //@        1 <= callres(littleEndian.Uint32, 0, 0) && callres(littleEndian.Uint32, 0, 0) <= 4 && callres(littleEndian.Uint32, 1, 0) <= 3)
 //@   exit [C12:header-fields] r1 == nil ==> r0 != nil && r0.fileVersion == callres(littleEndian.Uint32, 0, 0) && r0.compressionType == callres(littleEndian.Uint32, 1, 0)
 //@   exit [rejected-means-nil] r1 != nil ==> r0 == nil
+//@   ensures [accepted-header-is-returned] r1 == nil ==> r0 != nil
+//@   fresh r0
+//@   modifies nothing
 
 //@ func (*checksumByteReader).Count
 //@   props C12
